@@ -1,6 +1,7 @@
 package main
 
 import (
+	"strings"
 	"fmt"
 	"go/ast"
 	"go/token"
@@ -139,6 +140,73 @@ func (c *Ctx) checkEnumSiblings(rule string) {
 	}
 }
 
+// enumDescentGuards: the three branch enumerations must descend under the same condition on the
+// branch they are called with (they differ only in what they append).
+func (c *Ctx) enumDescentGuards(rule string) {
+	ref := ""
+	for _, h := range []string{"edgesRecur", "internalEdgesRecur", "tipEdgesRecur"} {
+		fi := c.Func("tree", "Tree", h)
+		if fi == nil {
+			continue
+		}
+		info := fi.Pkg.TypesInfo
+		p0 := paramObj(info, fi.Decl, 0)
+		o := &canonOpts{subst: map[types.Object]string{p0: "$P"}}
+		var guard []string
+		for _, call := range callsIn(fi.Decl.Body, true) {
+			if calleeOf(info, call) != fi.Obj {
+				continue
+			}
+			conds, okc := c.pathConds(info, fi.Decl.Body, call, false)
+			if !okc {
+				c.Undecided(rule, "tree.Tree."+h+"/descent-guard", call.Pos(), "guard shape not understood")
+				continue
+			}
+			// range variables of the function
+			loopVars := map[types.Object]bool{}
+			ast.Inspect(fi.Decl.Body, func(n ast.Node) bool {
+				if rs, ok := n.(*ast.RangeStmt); ok {
+					for _, e := range []ast.Expr{rs.Key, rs.Value} {
+						if e != nil {
+							if ob := identObj(info, e); ob != nil {
+								loopVars[ob] = true
+							}
+						}
+					}
+				}
+				return true
+			})
+			for _, cd := range conds {
+				if cd.Expr == nil || !mentions(info, cd.Expr, p0) {
+					continue
+				}
+				onlyParam := true
+				for lv := range loopVars {
+					if mentions(info, cd.Expr, lv) {
+						onlyParam = false
+					}
+				}
+				if !onlyParam {
+					continue
+				}
+				k := c.inlineNneigh(c.inlineTip(c.toBexpr(info, cd.Expr, o))).String()
+				if cd.Neg {
+					k = "!" + k
+				}
+				guard = append(guard, k)
+			}
+		}
+		g := strings.Join(guard, " && ")
+		if h == "edgesRecur" {
+			ref = g
+			c.OK(rule, "tree.Tree."+h+"/descent-guard", fi.Decl.Pos(), "descends below a branch iff "+g)
+			continue
+		}
+		c.Check(g == ref, rule, "tree.Tree."+h+"/descent-guard", fi.Decl.Pos(), "same descent guard as edgesRecur: "+g,
+			fmt.Sprintf("%s descends below a branch under `%s` while edgesRecur descends under `%s`: on trees where the two differ (e.g. a node of degree 2 left by a re-rooting) the enumerations disagree", h, g, ref)).Clause = "all branches = internal + external ones"
+	}
+}
+
 // inlineTip rewrites the atom `X.Tip()` into the comparison len(X.neigh) == 1 it stands for, so that
 // `e.Right().Tip()` and `len(e.right.neigh) == 1` meet. Tip() is checked to be exactly that.
 func (c *Ctx) inlineTip(b *bexpr) *bexpr {
@@ -183,4 +251,78 @@ func (c *Ctx) tipIsLenOne() bool {
 	}
 	tipOK = c.canon(fi.Pkg.TypesInfo, ret.Results[0], nil) == "(1 == len("+r.Name()+".neigh))"
 	return tipOK
+}
+
+// orientRule: a branch created by ConnectNodes(parent, child) points from parent to child. Making
+// `child` the root in the same block, with nothing re-orienting afterwards, leaves a branch pointing
+// into the root.
+func (c *Ctx) orientRule(rule string) int {
+	n := 0
+	reorients := map[string]bool{"ReorderEdges": true, "reroot_nocheck": true, "Reroot": true, "Inverse": true, "RerootFirst": true}
+	for _, fi := range c.AllFuncs("tree") {
+		info := fi.Pkg.TypesInfo
+		o := c.localExpansions(info, fi.Decl.Body)
+		var lists [][]ast.Stmt
+		ast.Inspect(fi.Decl.Body, func(m ast.Node) bool {
+			switch x := m.(type) {
+			case *ast.BlockStmt:
+				lists = append(lists, x.List)
+			case *ast.CaseClause:
+				lists = append(lists, x.Body)
+			}
+			return true
+		})
+		for _, list := range lists {
+			type conn struct {
+				parent, child string
+				pos           token.Pos
+			}
+			var conns []conn
+			for _, s := range list {
+				// calls directly in this statement (not in nested blocks)
+				var calls []*ast.CallExpr
+				switch x := s.(type) {
+				case *ast.ExprStmt:
+					if cl, ok := x.X.(*ast.CallExpr); ok {
+						calls = append(calls, cl)
+					}
+				case *ast.AssignStmt:
+					for _, r := range x.Rhs {
+						if cl, ok := unparen(r).(*ast.CallExpr); ok {
+							calls = append(calls, cl)
+						}
+					}
+				}
+				for _, cl := range calls {
+					fn := calleeOf(info, cl)
+					switch {
+					case isRepoFunc(fn, "tree", "Tree", "ConnectNodes") && len(cl.Args) == 2:
+						conns = append(conns, conn{c.canon(info, cl.Args[0], o), c.canon(info, cl.Args[1], o), cl.Pos()})
+					case isRepoFunc(fn, "tree", "Tree", "SetRoot") && len(cl.Args) == 1:
+						r := c.canon(info, cl.Args[0], o)
+						for _, cn := range conns {
+							n++
+							key := fmt.Sprintf("%s/ConnectNodes(%s,%s)+SetRoot(%s)", funcName(fi.Obj), cn.parent, cn.child, r)
+							if cn.child != r {
+								c.OK(rule, key, cl.Pos(), "the new root is not the child end of the branch just created")
+								continue
+							}
+							later := false
+							for _, c2 := range callsIn(fi.Decl.Body, false) {
+								if g := calleeOf(info, c2); g != nil && reorients[g.Name()] && c2.Pos() > cl.Pos() {
+									later = true
+								}
+							}
+							if later {
+								c.OK(rule, key, cl.Pos(), "re-oriented afterwards")
+							} else {
+								c.Violation(rule, key, cn.pos, fmt.Sprintf("ConnectNodes(%s, %s) creates a branch pointing from %s to %s, and %s is then made the root with nothing re-orienting the branches: a branch points into the root", cn.parent, cn.child, cn.parent, cn.child, r)).Clause = "every branch pointing away from the root"
+							}
+						}
+					}
+				}
+			}
+		}
+	}
+	return n
 }
